@@ -37,7 +37,7 @@ def concretise(abstract_ops, cast_name):
 
 
 DOC_IDS = ["srt1", "srt2", "vtt1", "vtt2", "dfxp1", "dfxp2", "dfxp_px", "sami1", "sami4", "mdvd1", "mdvd2",
-           "scc1", "scc2", "scc3", "scc_long", "scc_left", "scc_badtc", "dfxp_none", "dfxp_ta", "sami_ta", "vtt_bad", "srt_none", "dfxp_sloppy", "dfxp_plang", "scc_roll", "scc_midpunct", "dfxp_fr25"]
+           "scc1", "scc2", "scc3", "scc_long", "scc_left", "scc_badtc", "dfxp_none", "dfxp_ta", "sami_ta", "vtt_bad", "srt_none", "dfxp_sloppy", "dfxp_plang", "scc_roll", "scc_midpunct", "dfxp_fr25", "dfxp2_lc"]
 
 
 def random_history(rng, steps, write_bias):
